@@ -60,3 +60,24 @@ Definition table_of_text (nm : RM.C09.Grammar.rle -> Z) (tg : RM.C09.Grammar.win
 
 (* the parsed tables, for the table part of the answer line *)
 Definition table_of (rf : raw_file) : outcome symtab := build_symtab rf.
+
+(* second pass: the same with every FUNC block finished by the function COMPILED from the Line::Function arm of
+   SymbolParser::finish_item (Gen/C11Src.v src_finish_function: `cur` as the FUNC line leaves it — no lines, no inlinees —
+   then the block's line records and INLINE ranges); the rest of SymbolParser::finish as in build_symtab.
+   c11_compiled_build_symtab: equal to build_symtab on every wf_file; the glue prints this table and flags a difference *)
+Fixpoint src_finish_funcs (p : profile) (acc : list (range * func)) (l : list func_raw) : outcome (list (range * func)) :=
+  match l with
+  | [] => Ret acc
+  | fr :: t =>
+      do acc' <- src_finish_function p acc (mk_func (fr_addr fr) (fr_size fr) (fr_psize fr) (fr_name fr) [] [])
+                                     (fr_lines fr) (fr_inls fr);
+      src_finish_funcs p acc' t
+  end.
+Definition table_of_src (p : profile) (rf : raw_file) : outcome symtab :=
+  do fl <- src_finish_funcs p [] (rf_funcs rf);
+  do funcs <- build_p func_eqb fl;
+  do wfd <- win_collect [] (rf_win_fd rf);
+  do tfd <- build_p win_eqb wfd;
+  do wfpo <- win_collect [] (rf_win_fpo rf);
+  do tfpo <- build_p win_eqb wfpo;
+  Ret (mk_symtab (rf_files rf) (rf_origins rf) (sort_by pub_lt (rf_publics rf)) funcs tfd tfpo).
